@@ -650,8 +650,51 @@ func (g *Gen) stmt(sc *scope, blockDepth int) Stmt {
 // Program generates a whole program.
 func (g *Gen) Program(nstmts int) []Stmt {
 	g.Blocks = nil
+	if g.chance(12) {
+		return g.bindFamily()
+	}
 	sc := &scope{}
 	return g.stmts(sc, nstmts, 0)
+}
+
+// bindFamily: one to seven toplevel blocks of one type (told apart by a field),
+// interleaved with blocks of other types, then one to three bind statements over them
+// with every selector and target - what the selector picks depends on how many
+// candidates there are and on where they stand among the other blocks.
+func (g *Gen) bindFamily() []Stmt {
+	typ := g.pick(typeNames)
+	n := 1 + g.r.Intn(7)
+	var out []Stmt
+	other := func() {
+		t := g.pick(typeNames)
+		if t == typ {
+			return
+		}
+		out = append(out, DefStmt{t, "", []Stmt{ExprStmt{Assign{"k", Lit{"int", fmt.Sprint(100 + g.r.Intn(9))}}}}})
+	}
+	for i := 0; i < n; i++ {
+		for g.chance(3) {
+			other()
+		}
+		name := ""
+		if g.chance(3) {
+			name = fmt.Sprintf("%q", fmt.Sprintf("n%d", i))
+		}
+		out = append(out, DefStmt{typ, name, []Stmt{ExprStmt{Assign{"k", Lit{"int", fmt.Sprint(i + 2)}}}}})
+		if g.chance(6) {
+			out = append(out, BindStmt{typ, g.pick([]string{"", "first", "last", "all"}), g.pick([]string{"struct", "slice"})})
+		}
+	}
+	for g.chance(3) {
+		other()
+	}
+	for j := 1 + g.r.Intn(3); j > 0; j-- {
+		sel := g.pick([]string{"", "1", "first", "last", "last", "all"})
+		tgt := g.pick([]string{"struct", "slice", "slice"})
+		g.count(fmt.Sprintf("bindfamily.n%d.%s.%s", n, sel, tgt))
+		out = append(out, BindStmt{typ, sel, tgt})
+	}
+	return out
 }
 
 // Render gives source text for a program.
